@@ -363,6 +363,11 @@ class ThreadProg:
             with contextlib.suppress(BaseException):
                 self.block(st[1])
             self.probe_hit("foreign_suppress_block")
+        elif op == "gc":
+            import gc
+
+            gc.collect()
+            self.stat("gc_collect_statements")
         elif op == "poke":
             # foreign code inside a body changes the register itself (e.g. a C library that sets FTZ and does
             # not put it back): whatever it leaves, the enclosing context's exit must restore the entry value
@@ -531,6 +536,8 @@ def gen_block(rng, kn, depth, budget):
             out.append(["raise", rng.choice(kn["excs"])])
         elif r < kn["p_with"] + 0.29 + kn["p_raise"] and depth >= 1 and kn.get("poke"):
             out.append(["poke", gen_init(rng, "arith")])
+        elif r < kn["p_with"] + 0.33 + kn["p_raise"] and kn.get("gc"):
+            out.append(["gc"])
         elif r < kn["p_with"] + 0.36 + kn["p_raise"] and depth < kn["max_depth"]:
             catches = rng.sample(kn["excs"], rng.randint(1, len(kn["excs"])))
             out.append(["try", gen_block(rng, kn, depth, budget), catches])
@@ -579,6 +586,7 @@ def make_case(seed, tier="quick", nthreads=None, sweep=False):
         "p_raise": kn_rng.choice([0.0, 0.05, 0.12, 0.2]),
         "slots": kn_rng.randint(1, 3),
         "poke": mode == "arith" and kn_rng.random() < 0.4,
+        "gc": kn_rng.random() < 0.5,
     }
     threads = []
     for t in range(nthreads):
@@ -630,6 +638,22 @@ def run_case(case):
 
 
 def run_plain(case):
+    """The cyclic garbage collector is a source of nondeterminism the property can depend on (a __del__
+    that touches the register): it is switched off for the episode and runs only at `gc` statements of the
+    program, i.e. where the seed says."""
+    import gc
+
+    was = gc.isenabled()
+    gc.collect()
+    gc.disable()
+    try:
+        return _run_plain(case)
+    finally:
+        if was:
+            gc.enable()
+
+
+def _run_plain(case):
     obs = get_obs()
     log = EventLog(keep=False)
     log.ev("seed", case.get("seed"))
@@ -940,7 +964,7 @@ def _nullify(block):
     """For calibration: contexts request nothing and the program does no arithmetic of its own (probes and
     flag-raising statements removed), so that any change of the register between two observations is
     noise of the interpreter / harness itself."""
-    block[:] = [st for st in block if st[0] not in ("probe", "flags", "poke")]
+    block[:] = [st for st in block if st[0] not in ("probe", "flags", "poke", "gc")]
     for st in block:
         if st[0] == "with":
             st[1].clear()
